@@ -42,7 +42,7 @@ from .values import (
 
 
 class Obligation:
-    def __init__(self, name, kind, func, hyps, goal, expect="valid", model_vars=None):
+    def __init__(self, name, kind, func, hyps, goal, expect="valid", model_vars=None, size_terms=None):
         self.name = name
         self.kind = kind
         self.func = func
@@ -50,6 +50,7 @@ class Obligation:
         self.goal = goal
         self.expect = expect  # 'valid' (hyps => goal) | 'sat' (cover: hyps satisfiable)
         self.model_vars = model_vars or {}
+        self.size_terms = size_terms or []
 
 
 class FunV(V):
@@ -259,6 +260,49 @@ class Engine:
                 raise Unsupported(f"{kind} outside a loop")
         return self.obls[start:]
 
+    def verify_lemma(self, name):
+        """A lemma is a formula over contracts only (callee contracts instantiated by
+        c.call); it is proved from the contracts, never from function bodies."""
+        L = dsl.LEMMAS[name]
+
+        class _F:
+            qualname = f"lemma:{name}"
+            module = None
+            lines = (0, 0)
+
+        self.func, self.contract = _F, None
+        st = State()
+        c = dsl.SymCtx(self)
+        c.state = st
+        params = {}
+        for pname, sort in L["params"].items():
+            v = self.make_param(pname, sort, st)
+            if sort == "Perm":
+                st.assume(c.is_perm(v))
+            elif sort in ("Mesh", "MeshPatt"):
+                st.assume(c.is_mesh(v))
+            params[pname] = v
+        self.params = params
+        self.model_vars = {}
+        for pname, v in params.items():
+            if isinstance(v, IntV):
+                self.model_vars[pname] = ("int", v.t)
+            elif isinstance(v, SeqV) and "fun" in v.meta:
+                self.model_vars[pname] = ("seq", v.meta["len"], v.meta["fun"])
+            elif isinstance(v, ObjV) and "pattern" in v.fields:
+                pt = v.fields["pattern"]
+                self.model_vars[pname + ".pattern"] = ("seq", pt.meta["len"], pt.meta["fun"])
+                self.model_vars[pname + ".shading"] = ("cells", v.fields["shading"].fun, pt.meta["len"])
+        start = len(self.obls)
+        goal = L["fn"](c, *params.values())
+        for f in c.side:
+            st.assume(f)
+        c.side.clear()
+        self.obls.append(Obligation(f"lemma:{name}:cover", "cover", f"lemma:{name}", st.pc, z3.BoolVal(True), expect="sat"))
+        for j, conj in enumerate(_conjuncts(B(goal))):
+            self.emit("goal", st, conj, f".{j}")
+        return self.obls[start:]
+
     def emit(self, kind, st, goal, tag=""):
         name = f"{self.func.qualname}:{kind}{tag}"
         n = sum(1 for o in self.obls if o.name == name or o.name.startswith(name + "~"))
@@ -275,7 +319,8 @@ class Engine:
                     for term in (cst, n_ - 1 - cst):
                         hyps.append(mark(F_(term)))
                         hyps.append(mark(G_(term)))
-        self.obls.append(Obligation(name, kind, self.func.qualname, hyps, goal2, model_vars=getattr(self, "model_vars", None)))
+        sizes = [n_ for (_f, _g, n_) in self.perm_registry] + [v.t for v in getattr(self, "params", {}).values() if isinstance(v, IntV)]
+        self.obls.append(Obligation(name, kind, self.func.qualname, hyps, goal2, model_vars=getattr(self, "model_vars", None), size_terms=sizes))
 
     def check_post(self, st, val):
         K = self.contract
@@ -1055,6 +1100,8 @@ class Engine:
             raise Unsupported(f"call to {name} which has no contract")
         self.used_contracts.add(name)
         c = ctx or dsl.SymCtx(self)
+        if st is None and getattr(c, "state", None) is not None:
+            st = c.state
         names = list(K.params)
         vals = list(args)
         kwargs = kwargs or {}
